@@ -22,6 +22,7 @@ func init() {
 			"(D3) sibling agreement: every function that changes the lease list also updates the IP index, the hostname index and the pool-offset bitset; (D4) the table is touched only under leasesLock and the database-store path reads it under the lock; (D5) static-lease insertion is reached only after the validation calls succeeded; the store callback writes through the atomic writer (C14). " +
 			"(D6) conflict removal: the function that makes room for a new lease (rmDynamicLease) can remove more than one lease per call — a lease can conflict with one existing lease by hardware address and with another by IP address — i.e. its removal site lies in a loop over the lease list or there are at least two removal sites, and every caller registers the new lease only after it succeeded; (D7) the hostname index follows a rename: when commitLease changes a lease's hostname the old name's index entry is deleted (at most guarded by 'still points at this lease') and the new name is indexed. " +
 			"(D8) pool accounting: the pool-offset set is changed only with an offset that (*ipRange).offset reported as lying inside the range — on the ok edge of that very call — so a lease outside the dynamic range (static reservations elsewhere in the subnet) neither occupies nor frees a pool address. " +
+			"(D5, cont.) a lease found under the same hostname or address that belongs to another device always fails the validation, whatever else is true of it (expired, dynamic). " +
 			"Not decided: uniqueness of addresses/clients over message histories, pool exhaustion, expiry arithmetic, restart equivalence beyond 'stored after each change'.",
 		RuleText: "Mutations are SSA stores/map updates/deletes/bitset sets on the four table fields and stores to dhcpsvc.Lease fields; obligations propagate from callee to callers until a function without module callers is reached.",
 		Assumptions: []string{
@@ -455,7 +456,7 @@ func (a *c10) registeredOnce() {
 			r.Undecided("C10-D2", k, "-", "anchor not found")
 			continue
 		}
-		r.Check(len(core.CallsTo(fn, "(*dhcpd.v4Server).addLease")) > 0, "C10-D2", "allocator-registers:"+k, p.FnPos(fn),
+		r.Check(len(core.CallsToDeep(fn, "(*dhcpd.v4Server).addLease")) > 0, "C10-D2", "allocator-registers:"+k, p.FnPos(fn),
 			"the allocator registers the lease it returns", "allocator no longer registers the lease; the typestate table is stale")
 	}
 	opts := core.ProvOpts{InterprocDepth: 3, Prog: p, Stop: func(v ssa.Value) string {
@@ -660,6 +661,32 @@ func (a *c10) validation() {
 			return false, false
 		}},
 	}
+	// a lease found under the same hostname / address that belongs to another device is a duplicate, whatever
+	// else is true of it (expired, dynamic, ...): the address or name is still in the table and in the indexes
+	dupOf := func(table string) func(core.Atom) (bool, bool) {
+		return func(at core.Atom) (bool, bool) {
+			if at.Op != token.ILLEGAL || !core.IsCallResult(at.Base, -1, "bytes.Equal") {
+				return false, false
+			}
+			call, _, _ := core.CallResult(at.Base)
+			for _, arg := range call.Common().Args {
+				if ct, isCT := arg.(*ssa.ChangeType); isCT {
+					arg = ct.X
+				}
+				fr, owner, ok := core.LoadedField(core.ResolveCellLoad(arg))
+				if !ok || fr.Field != "HWAddr" {
+					continue
+				}
+				if ex, isEx := core.ResolveCellLoad(owner).(*ssa.Extract); isEx && ex.Index == 0 {
+					if lk, isLk := ex.Tuple.(*ssa.Lookup); isLk && tableFieldOf(lk.X) == table {
+						return true, false
+					}
+				}
+			}
+			return false, false
+		}
+	}
+	fails = append(fails, failSpec{"other-device-has-the-hostname", dupOf("hostsIndex")}, failSpec{"other-device-has-the-address", dupOf("ipIndex")})
 	for _, fs := range fails {
 		edges, n := core.CondEdges(vs, fs.match)
 		var starts []core.Point
